@@ -202,6 +202,9 @@ theorem stream_step (s : St) (o : Op) (h : calmStep s o = true) :
     have hp : s.pending = [] := by simpa using h
     simp only [step, opText, List.append_nil]
     split <;> simp [stream, hp]
+  | inval =>
+    simp only [step, opText, List.append_nil]
+    split <;> simp [stream, outText_append, outText]
 
 /-! ### positions of the write calls in the output -/
 
@@ -271,6 +274,7 @@ def phStep : Ph → Ev → Option Ph
   | .off, .out _ _ => some .off
   | .off, .draw => some .on
   | .on, .erase => some .sec0
+  | .on, .draw => some .on          -- the application repaints its prompt
   | .on, .doneDraw => some .off
   | .sec0, .out _ _ => some .sec1
   | .sec1, .draw => some .on
@@ -470,6 +474,13 @@ theorem binv_step (s : St) (o : Op) (hs : startSafe s o = true) (h : BInv s) : B
       rcases hrl g t d he with h1 | ⟨h2, _⟩
       · left; exact h1
       · right; exact ⟨h2, rfl⟩
+    · exact ⟨hph, hal, hdir, hrl, hrd⟩
+  | inval =>
+    simp only [step]
+    split
+    · rename_i hc
+      refine ⟨?_, hal, hdir, hrl, hrd⟩
+      simp only [phRun_append, hph, hc, phaseOf]; rfl
     · exact ⟨hph, hal, hdir, hrl, hrd⟩
 
 /-! ### main theorems: exactly once, order, contiguity -/
@@ -709,6 +720,7 @@ theorem alive_step (s : St) (o : Op) (ho : o ≠ .close)
   | stop => simp only [step]; split <;> exact ⟨hq, hf⟩
   | newLoop => simp only [step]; split <;> exact ⟨hq, hf⟩
   | closeLoop => simp only [step]; split <;> exact ⟨hq, hf⟩
+  | inval => simp only [step]; split <;> exact ⟨hq, hf⟩
 
 /-- **flusher_alive.**  Unless `close()` is called, the flush thread never terminates — whatever the
     application and its event loop do (stop, loop closed between look-up and hand-off, new loop).
@@ -837,6 +849,9 @@ theorem count_step (s : St) (o : Op) (c : Char) :
     split
     · simp [everywhere, cat, List.count_append]
     · rfl
+  | inval =>
+    simp only [step, opText, List.count_nil, Nat.add_zero]
+    split <;> simp [everywhere, outText_append, outText]
 
 /-- **conservation.**  For *every* schedule — including the ones in which a loop is closed with callbacks
     still waiting, or the flush thread overtakes the loop — no character is invented or duplicated: the
@@ -1195,6 +1210,7 @@ theorem no_nl_step (s : St) (o : Op) (h : '\n' ∉ cat s.buffer) : '\n' ∉ cat 
   | stop => simp only [step]; split <;> exact h
   | newLoop => simp only [step]; split <;> exact h
   | closeLoop => simp only [step]; split <;> exact h
+  | inval => simp only [step]; split <;> exact h
 
 /-- **no_newline_in_buffer.**  The line buffer never contains a newline: everything up to the last
     newline of a write is queued by that very write call; only an unfinished line waits for `flush()`. -/
